@@ -171,6 +171,24 @@ def build(seed, for_feedforward=False):
                                              scale_misal_sd=[[1e-3, 0, 0], [0, 0, 1e-3], [0, 0, 0]])
         am = inertial_sensor.EstimationModel(bias_sd=1e-2, noise=[1e-3, 0, 1e-3], bias_walk=1e-4,
                                              scale_misal_sd=[[0, 0, 0], [1e-3, 1e-3, 0], [0, 0, 0]])
+    if frng.random() < 0.3:
+        # the two triads configured independently (scale / misalignment states on one of them only, one triad without any model, ...)
+        def one(which):
+            k = str(frng.choice(['none', 'bias', 'sm', 'full']))
+            if k == 'none':
+                return None, k
+            if k == 'bias':
+                return inertial_sensor.EstimationModel(bias_sd=1e-4 if which == 'g' else 1e-2), k
+            smm = [[1e-3, 0, 0], [0, 0, 1e-3], [0, 0, 0]] if which == 'g' else [[0, 0, 0], [1e-3, 1e-3, 0], [0, 0, 0]]
+            if k == 'sm':
+                return inertial_sensor.EstimationModel(scale_misal_sd=smm), k
+            return inertial_sensor.EstimationModel(bias_sd=[1e-4, 0, 2e-4] if which == 'g' else 1e-2, noise=1e-5 if which == 'g' else [1e-3, 0, 1e-3],
+                                                   bias_walk=[1e-6, 0, 0] if which == 'g' else 1e-4, scale_misal_sd=smm), k
+        (gm, kg), (am, ka) = one('g'), one('a')
+        mk = 'full' if ('sm' in (kg, ka) or 'full' in (kg, ka)) else ('none' if kg == ka == 'none' else 'bias')
+        mixed_models = f'{kg}/{ka}'
+    else:
+        mixed_models = None
     # epochs per class inside [start, end) and how many share an IMU interval
     all_e = np.unique(np.concatenate([np.asarray(m.data.index, float) for m in sensors] + [np.array([])]))
     inside = all_e[(all_e >= start) & (all_e < end)]
@@ -179,7 +197,7 @@ def build(seed, for_feedforward=False):
     return dict(traj=traj, imu=imu, increments=inc, measurements=meas_arg, sensors=sensors, times=t, start=start, end=end,
                 with_altitude=with_altitude, time_step=time_step, gyro_model=gm, accel_model=am, model_kind=mk,
                 describe=dict(imu=kind, step=step, n_inc=int(len(inc)), median_dt=h, max_gap=float(np.diff(t).max()),
-                              time_step=time_step, with_altitude=with_altitude, models=mk, sensors=desc, tables_permuted=table_forms, tiny_record=tiny,
+                              time_step=time_step, with_altitude=with_altitude, models=mk, sensors=desc, tables_permuted=table_forms, tiny_record=tiny, mixed_models=mixed_models,
                               measurements_arg='list' if sensors else ('None' if meas_arg is None else '[]'),
                               epochs_inside=int(len(inside)), max_epochs_in_one_interval=int(per_interval)),
                 init_err=init_err)
